@@ -547,6 +547,22 @@ Fixpoint eval (fuel : nat) (e : expr) (ρ : env) (w : world) {struct fuel} : res
           | _ => Stuck "call: callee"
           end
       end
+  | EListComp elt target iter conds =>
+      do iw <- eval f iter ρ w; do items <- as_list (fst iw);
+      (fix go (items : list val) (acc : list val) (w : world) : res (val * world) :=
+         match items with
+         | [] => Ok (VList (rev acc), w)
+         | x :: r =>
+             do a <- assign (eval f) f target x ρ w;
+             do cw <- (fix conj (cs : list expr) (w : world) : res (bool * world) :=
+                         match cs with
+                         | [] => Ok (true, w)
+                         | c :: cs' => do vw <- eval f c (fst a) w; do t <- m_truthy (fst vw) (snd vw);
+                                       if fst t then conj cs' (snd t) else Ok (false, snd t)
+                         end) conds (snd a);
+             if fst cw then do ew <- eval f elt (fst a) (snd cw); go r (fst ew :: acc) (snd ew)
+             else go r acc (snd cw)
+         end) items [] (snd iw)
   | EUnsupported s => Stuck ("unsupported expr: " ++ s)
   end end
 
